@@ -104,7 +104,7 @@ CHECKS = {
         dict(prop="C16", harness="api_pbt", quick=dict(count=1600, workers=8), thorough=dict(count=50000, workers=16),
              essential=_ALL_SCHEMAS + ["on-disk", "in-memory", "files-compared", "track-with-performance-data"]),
         dict(prop="C16.table", harness="table_pbt", quick=dict(count=1200, workers=4), thorough=dict(count=40000, workers=16),
-             essential=_V2_SCHEMAS)]),
+             essential=_V2_SCHEMAS + ["on-disk", "in-memory", "files-compared", "dangling-entities"])]),
     "C02": dict(level="exploration", parts=[
         dict(prop="C02.enc", harness="codec_pbt", quick=dict(count=24000, workers=8), thorough=dict(count=2400000, workers=16),
              essential=_CODEC_ESS_KINDS + ["label=255", "payload>16KiB"]),
@@ -128,7 +128,7 @@ CHECKS = {
         dict(prop="REG", harness="api_pbt", quick=dict(count=0, workers=1), thorough=dict(count=0, workers=1)),  # regression scenarios
         dict(prop="C04.api", harness="api_pbt", quick=dict(count=3000, workers=6), thorough=dict(count=150000, workers=16),
              essential=_V2_SCHEMAS + ["setter=" + x for x in ["main_cue", "hot_cue_at", "hot_cues", "loop_at", "loops", "key", "sample_count", "sample_rate",
-                                                              "average_loudness", "beatgrid", "waveform", "title", "rating", "bpm", "relative_path"]]),
+                                                              "average_loudness", "beatgrid", "waveform", "title", "rating", "bpm", "relative_path"]] + ["multi-step"]),
     ]),
     "C05": dict(level="exploration", parts=[
         dict(prop="C05", harness="codec_pbt", quick=dict(count=60000, workers=8), thorough=dict(count=6000000, workers=16),
@@ -260,7 +260,9 @@ RULES = {
            "libraries a digest of every file in the database directory is unchanged by database_exists(), load_database(), Obs and verify() "
            "on the reloaded library. table part: the same write monitor around every observing operation of the 2.x table API (track_table "
            "get / get_<col> / all_ids / exists / find_id_by_path, playlist_table get / all_ids / child_ids / descendant_ids / exists / find_* / "
-           "root_ids, playlist_entity_table get / get_for_list / track_ids, information().get(), verify()) on generated rows and lists. "
+           "root_ids, playlist_entity_table get / get_for_list / track_ids, information().get(), verify()) on generated rows and lists, incl. "
+           "entities that refer to a list / track that does not exist; on-disk variants also compare file digests around exists(), "
+           "engine_library::load + observation and load_database. "
            "Non-trivial = state has >=1 track and >=1 membership or nested crate.",
     "C02": "Two generated campaigns over all 11 blob kinds. enc: a logical value (finite doubles, labels 0..255 bytes of arbitrary content, "
            "0..20 cue/loop entries, grids/waveforms of 0..60 entries plus 1024 and large sizes) is encoded by the library and decoded by "
@@ -281,7 +283,7 @@ RULES = {
            "inflated payload of to_blob(from_blob(b)) must equal the original payload byte for byte (main-cue boolean normalised to 1, located "
            "through the layout table). fuzz part: libFuzzer on the five 2.x decoders with the same oracle inside the target (raw bytes or "
            "bytes framed by the target). api part: a 2.x track row gets five foreign blobs (refcodec-built: counts != 8, flag bytes, tails) written "
-           "through the library's own connection, then ONE single-field setter is called; every layout token of the four other blobs, and every "
+           "through the library's own connection; 0..3 preliminary observers / simple setters (whose exact effect on the tokens is modelled) run on the same handle, then ONE single-field setter is called; every layout token of the four other blobs, and every "
            "token of the setter's own blob outside the field being set (incl. the tail), must be unchanged. Non-trivial = blob has a tail, a count != 8, a flag > 1, or is beat data; distinct = distinct payloads "
            "(pbt) + coverage-increasing corpus units beyond the seeds (fuzz).",
     "C05": "pbt part: a valid payload of one of the 11 kinds (from the value generators + refcodec) gets 1-2 structured mutations "
